@@ -15,6 +15,7 @@ import traceback
 HERE = os.path.dirname(os.path.abspath(__file__))
 sys.path.insert(0, HERE)
 import framework as fw  # noqa: E402
+sys.path.insert(0, fw.REPO)   # the implementation under test (PYREX_REPO overrides /repo for scratch trees)
 
 
 def main():
